@@ -24,11 +24,12 @@ class L2:
         self.asyncoro = self.mods['mpyc.asyncoro']
         self.sectypes = self.mods['mpyc.sectypes']
         self.n_bits = 0
+        self.draw_starts = []
         self.rb_calls = 0
         self.rb_cap = rb_cap
         if ideal_bits:
             self._ideal_random_bits()
-        if ideal_zero_test:
+        if ideal_zero_test and env.mode == 'sym':      # replays run the real prod / is_zero_public
             self._ideal_zero_test()
         if ideal_cmp:
             self._ideal_comparisons()
@@ -47,6 +48,7 @@ class L2:
             field = sftype.field if issec else sftype
             f = getattr(sftype, 'frac_length', 0) if issec else 0
             out = []
+            self.draw_starts.append(self.n_bits + 1)
             for _ in range(n):
                 self.n_bits += 1
                 b = env.fresh(f'bit{self.n_bits}', 0, 2)
@@ -70,9 +72,9 @@ class L2:
 
         def is_zero_public(a):
             def iszero(x):
-                v = getattr(x, 'value', x)
-                return v == 0
-            return asyncoro._AwaitableFuture(env.any(iszero(x) for x in a.share.e))
+                return kit.fval(x) == 0
+            e = a.e if isinstance(a, ProdObj) else a.share.e
+            return asyncoro._AwaitableFuture(env.any(iszero(x) for x in e))
         mpc.is_zero_public = is_zero_public
         for cls in (sectypes.SecureInteger, sectypes.SecureFixedPoint):
             orig = cls.__init__
